@@ -29,6 +29,8 @@ def posix_wd(y):
 
 SEAM = ("seam: the generated years reach the non-negative half of the time line, so that Load appends no 2^31-1 sentinel behind them "
         "(behind it the 400-year shift of BreakTime/MakeTime would read years the rule did not generate)")
+SEAM2 = ("seam: no rule instant of the year after the last generated one falls before that year's January 1 (local time); otherwise the "
+         "last hours of calendar year last_year_ (+400k) are converted without it")
 YEAR_LIM = (1 << 59) // 31556952 + 500          # |year| of any recorded transition (|t| <= 2^59) plus the 401 generated years
 DAY = 86400
 # The year loop is decided over three uninterpreted functions of the year, J(y) = SEC(y,1,1), W(y) = POSIX weekday of January 1,
@@ -192,6 +194,10 @@ def job_extend(N=1, T=2):
             # `if (transitions_.back().unix_time < 0) { append a transition at 2^31-1 }`, so the last generated instant must not be negative
             p = st.user["pushed"]
             if p: ex.prove(st, ge(p[-1][0], 0), SEAM)
+            # ... and must contain every rule instant up to the end of calendar year last_year_ (MakeTime answers civil seconds of that
+            # year from the table and shifts only later years): the next rule year's instants must not fall before its January 1
+            nxt = add(LY0, 402)
+            ex.prove(st, and_(ge(TO("start", nxt), 0), ge(TO("end", nxt), 0)), SEAM2)
         ex.call(st, ET, [z.obj], k)
     return ex.execute(h)
 
